@@ -171,7 +171,9 @@ fn spec_of(c: &Case) -> NodeSpec {
 fn expected_tp_on_master() -> String {
     format!(
         "{:?}",
-        statime::config::TimePropertiesDS::new_ptp_time(None, statime::config::LeapIndicator::NoLeap, false, false, statime::config::TimeSource::InternalOscillator)
+        // table 30: as grandmaster the instance announces the properties of its own clock,
+        // i.e. what the harness gave it at construction
+        simcore::harness::default_time_properties()
     )
 }
 
